@@ -308,4 +308,97 @@ theorem BJoin.hold {c d : Cfg} (hS : Shape c) (hB : BShape c) (hJ : BJoin c) (ho
     rw [hsm.1, hm] at this
     exact hb _ this
 
+/-! ### the deferred handler of the re-entry event launches its batch -/
+
+/-- **`BShape` survives the launch of a batch**: the re-entry event `r` (for the batch that starts at `s`) is acknowledged, the
+slots of the batch get their events (`news`) -/
+theorem BShape.launch {c d : Cfg} (hS : Shape c) (hB : BShape c) {r : Nat × EvKind} {f : Frame} {s : Nat} (hr : r ∈ evK c)
+    (hrk : r.2 = .reenter f s [] none) (hmc : 0 < f.mc) (news : List (Nat × EvKind))
+    (hnews : ∀ p ∈ news, ∃ i, i < f.width ∧ i / f.mc = s / f.mc ∧ ∃ t, p.2 = .visit t [{ f with idx := i }] false none)
+    (hcov : ∀ i, i < f.width → i / f.mc = s / f.mc → ∃ p ∈ news, ∃ t, p.2 = .visit t [{ f with idx := i }] false none)
+    (hmem : ∀ p, p ∈ evK d ↔ (p ∈ evK c ∧ p ≠ r) ∨ p ∈ news)
+    (hb : d.batches = c.batches) (hn : d.nextJ = c.nextJ) : BShape d := by
+  obtain ⟨⟨p0, hp0, f0, hf0, hz0⟩, hin, hall⟩ := hB.re r hr f s [] none hrk
+  obtain ⟨hj0, hbr0, _, hm0, _⟩ := hall p0 hp0 f0 hf0
+  have hw0 : f0.width = f.width := by simp [Frame.width, hbr0]
+  obtain ⟨hs0, hsm, hsw⟩ := hB.bmult p0 hp0 f0 hf0 s (hj0 ▸ hin)
+  rw [← hm0] at hsm
+  rw [hw0] at hsw
+  have hsk : s / f.mc * f.mc = s := by
+    have := Nat.div_add_mod s f.mc
+    rw [hsm, Nat.add_zero, Nat.mul_comm] at this; exact this
+  -- `r` is not a branch event, the others stay
+  have hnr : ∀ p ∈ evK c, ∀ g, brEv p g → p ≠ r := by
+    intro p hp g hg he
+    rw [he] at hg
+    simp [brEv, hrk, evStack] at hg
+  have hkeep : ∀ p ∈ evK c, ∀ g, brEv p g → p ∈ evK d := fun p hp g hg => (hmem p).mpr (Or.inl ⟨hp, hnr p hp g hg⟩)
+  -- the branch events afterwards
+  have hbrd : ∀ p ∈ evK d, ∀ g, brEv p g →
+      (p ∈ evK c) ∨ (∃ i, i < f.width ∧ i / f.mc = s / f.mc ∧ g = { f with idx := i }) := by
+    intro p hp g hg
+    rcases (hmem p).mp hp with ⟨h, _⟩ | h
+    · exact Or.inl h
+    · obtain ⟨i, hi, hb', t, hk⟩ := hnews p h
+      refine Or.inr ⟨i, hi, hb', ?_⟩
+      simp only [brEv, hk, evStack, List.cons.injEq, and_true] at hg
+      exact hg.symm
+  have hdata : ∀ p ∈ evK d, ∀ g, brEv p g → g.jid = f0.jid ∧ g.mc = f0.mc ∧ g.width = f0.width := by
+    intro p hp g hg
+    rcases hbrd p hp g hg with h | ⟨i, _, _, rfl⟩
+    · have := hS.same p h p0 hp0 g f0 hg hf0
+      exact ⟨this.1, hB.samemc p h p0 hp0 g f0 hg hf0, by simp [Frame.width, this.2.1]⟩
+    · exact ⟨hj0, hm0, by rw [hw0]; rfl⟩
+  -- no re-entry event is left
+  have hnone : ∀ p ∈ evK d, ∀ g s' st o, p.2 ≠ .reenter g s' st o := by
+    intro p hp g s' st o hk
+    rcases (hmem p).mp hp with ⟨h, hne⟩ | h
+    · exact hne (hB.reone p h r hr g s' st o f s [] none hk hrk)
+    · obtain ⟨i, _, _, t, hk'⟩ := hnews p h
+      rw [hk'] at hk; cases hk
+  have hnewbr : ∀ i, i < f.width → i / f.mc = s / f.mc → ∃ p' ∈ evK d, ∃ f', brEv p' f' ∧ f'.idx = i := by
+    intro i hi hb'
+    obtain ⟨p', hp', t, hk⟩ := hcov i hi hb'
+    exact ⟨p', (hmem p').mpr (Or.inr hp'), { f with idx := i }, by simp [brEv, hk, evStack], rfl⟩
+  constructor
+  · intro p hp g hg i hi hb'
+    rcases hbrd p hp g hg with h | ⟨i0, hi0, hb0, rfl⟩
+    · obtain ⟨p', hp', g', hg', hi'⟩ := hB.bcover p h g hg i hi hb'
+      exact ⟨p', hkeep p' hp' g' hg', g', hg', hi'⟩
+    · exact hnewbr i hi (by simpa using hb'.trans hb0)
+  · intro p hp g hg
+    exact ⟨p0, hkeep p0 hp0 f0 hf0, f0, hf0, hz0⟩
+  · intro p1 hp1 p2 hp2 g1 g2 hg1 hg2
+    rw [(hdata p1 hp1 g1 hg1).2.1, (hdata p2 hp2 g2 hg2).2.1]
+  · intro p hp g s' st o hk
+    exact absurd hk (hnone p hp g s' st o)
+  · intro p hp g hg s' hs'
+    rw [hb, (hdata p hp g hg).1] at hs'
+    rcases hB.rb p0 hp0 f0 hf0 s' hs' with ⟨p', hp', g', st, o, hk⟩ | ⟨p', hp', g', hg', hi'⟩
+    · have : p' = r := hB.reone p' hp' r hr g' s' st o f s [] none hk hrk
+      rw [this, hrk] at hk
+      simp only [EvKind.reenter.injEq] at hk
+      obtain ⟨_, rfl, _, _⟩ := hk
+      exact Or.inr (hnewbr s hsw rfl)
+    · exact Or.inr ⟨p', hkeep p' hp' g' hg', g', hg', hi'⟩
+  · intro p hp g hg hne
+    rw [hb]
+    rcases hbrd p hp g hg with h | ⟨i, hi, hb', rfl⟩
+    · exact hB.imax p h g hg hne
+    · show (f.jid, i / f.mc * f.mc) ∈ c.batches
+      rw [hb', hsk]; exact hin
+  · intro p hp g hg s1 s2 hs1 h0 hle hmod
+    obtain ⟨a, b, _⟩ := hdata p hp g hg
+    rw [hb, a] at hs1 ⊢
+    rw [b] at hmod
+    exact hB.down p0 hp0 f0 hf0 s1 s2 hs1 h0 hle hmod
+  · intro p hp g hg s1 hs1
+    obtain ⟨a, b, c'⟩ := hdata p hp g hg
+    rw [hb, a] at hs1
+    rw [b, c']
+    exact hB.bmult p0 hp0 f0 hf0 s1 hs1
+  · rw [hb, hn]; exact hB.bjlt
+  · intro p1 hp1 p2 hp2 f1 s1 st1 o1 f2 s2 st2 o2 h1 _
+    exact absurd h1 (hnone p1 hp1 f1 s1 st1 o1)
+
 end Asl.Crash
